@@ -202,6 +202,18 @@ where
     }
 
     fn fill_inner(&mut self) -> std::io::Result<()> {
+        if matches!(self, Self::Unknown) {
+            return Err(std::io::Error::other("encryptor is in error state"));
+        }
+        let res = self.fill_inner_unchecked();
+        if res.is_err() {
+            // the buffer may hold data that was not encrypted
+            *self = Self::Unknown;
+        }
+        res
+    }
+
+    fn fill_inner_unchecked(&mut self) -> std::io::Result<()> {
         match self {
             Self::Prefix { prefix, .. } => {
                 if prefix.has_remaining() {
